@@ -2,6 +2,15 @@
 Executable statement of property C17 on (input, output) pairs. Run by the driver on the
 IMPLEMENTATION's outputs. Cells are matched BY COORDINATE (adding the `bootstrap` detail can
 reorder slices), nothing here calls the model's `bootstrap` / `thin` / `momentMatch`.
+
+INDEPENDENT of the model's arithmetic (state the property on input and output only): `rankOrderOk`, `rankFixed`,
+`sameMultiset`, `bootstrapStructureOk`, `firstCellsUnchanged`, `ataMembershipOk` (own `ratios`/`safeDiv`),
+`thinOk` (recovers the index vector from the output), `momentOk`, `reproducesSlice`, `probVectorsOk`, and —
+given the closed-form interval ends — `meLimitsOk` / `meEnvelopeOk` (bounds only).
+DIFFERENTIAL (they RE-RUN pieces of the model and compare; they tie the implementation to the theorems about the
+model but are not a second statement of the property): `mePermOk`, `meValueOk` (call `meQuantiles`),
+`meIntervalsOk` (calls `y0At`/`y1At`), `chainOkSlice` (calls `resampledAtas`), `weightsOk` (calls `ataWeights`),
+`momentsOk` (calls `meanQ`/`varQ`).
 -/
 import Bermuda.Model.Resample
 import Bermuda.Model.ResampleATA
@@ -245,5 +254,21 @@ def reproducesSlice (s rep : List Cell) (i : Nat) (fields : List String) : Bool 
 /-- mean, population variance and count handed to the sampler are the source array's -/
 def momentsOk (d : List Rat) (mean var : Rat) (n : Nat) (tolM tolV : Rat) : Bool :=
   closeTo tolM (meanQ d) mean && closeTo tolV (varQ d) var && n == d.length
+
+/-! ### the probability vectors handed to `rng.choice` (age-to-age slices) -/
+
+/-- independent of the model: every recorded vector is non-negative and sums to 1 (± tol) -/
+def probVectorsOk (tol : Rat) (impl : Factors) : Bool :=
+  impl.all fun lt => lt.2.all fun fa =>
+    fa.2.all (fun v => decide (0 ≤ v)) && closeTo tol (sumQ fa.2) 1
+
+/-- the recorded vectors are the slice's volume weights `ataWeights` (lag by lag, field by field) -/
+def weightsOk (s : List Cell) (fields : List String) (tol : Rat) (impl : Factors) : Bool :=
+  match ataWeights s fields with
+  | .error _ => true
+  | .ok W =>
+    W.length == impl.length && (W.zip impl).all fun p =>
+      p.1.1 == p.2.1 && p.1.2.length == p.2.2.length && (p.1.2.zip p.2.2).all fun q =>
+        q.1.1 == q.2.1 && closeLists tol q.1.2 q.2.2
 
 end Bermuda.Spec.C17
